@@ -120,7 +120,8 @@ class Grid(col.MutableSequence):
                     len(self.column[col]) != len(other.column[col]):
                 return False
             for key in self.column[col].keys():
-                if not Grid._approx_check(self.column[col][key], other.column[col][key]):
+                if key not in other.column[col] or \
+                        not Grid._approx_check(self.column[col][key], other.column[col][key]):
                     return False
         # Check row matches
         if len(self) != len(other):
